@@ -378,4 +378,63 @@ theorem WInv_mark {sigs : Content} {P P' : Pending} {log : Log} {k : Key} (h : W
               by rw [← hr, h5], by rw [← he, h6], r', hr', by rw [hd', hrd]⟩
           · exact ⟨g, by rw [h1]; simp [hg], hr, he, r, hrm, hrd⟩
 
+
+theorem WInv_markAll {sigs : Content} {P' : Pending} (ks : List Key) {log : Log}
+    (h : WInv sigs (fun r e d => P' r e d ∨ ({ room := r, ent := e, day := d } : Key) ∈ ks) log) :
+    WInv sigs P' (markAll ks log) := by
+  induction ks generalizing log with
+  | nil =>
+    simp only [markAll, List.foldl_nil]
+    refine ⟨h.groups, fun g hg => (h.ginv g hg).mono ?_, ?_⟩
+    · intro day hd; simpa using hd
+    · intro room ent day hne
+      rcases h.covers room ent day hne with hc | hc
+      · exact Or.inl (by simpa using hc)
+      · exact Or.inr hc
+  | cons k t ih =>
+    simp only [markAll, List.foldl_cons]
+    refine ih (log := mark k log) (WInv_mark h ?_)
+    intro room ent day hp
+    rcases hp with hp | hp
+    · exact Or.inl (Or.inl hp)
+    · rcases List.mem_cons.mp hp with hp | hp
+      · right
+        have := congrArg Key.room hp; have := congrArg Key.ent hp; have := congrArg Key.day hp
+        simp_all
+      · exact Or.inl (Or.inr hp)
+
+/-- the content changes; every day whose signatures change becomes pending -/
+theorem WInv_write {sigs sigs' : Content} {P P' : Pending} {log : Log} (h : WInv sigs P log)
+    (hp : ∀ r e d, P r e d → P' r e d) (hc : ∀ r e d, sigs' r e d ≠ sigs r e d → P' r e d) :
+    WInv sigs' P' log := by
+  have hsame : ∀ r e d, ¬ P' r e d → sigs' r e d = sigs r e d := by
+    intro r e d hn
+    by_cases he : sigs' r e d = sigs r e d
+    · exact he
+    · exact absurd (hc r e d he) hn
+  refine ⟨h.groups, ?_, ?_⟩
+  · intro g hg
+    have hgi := h.ginv g hg
+    refine ⟨hgi.sorted, ?_, ?_⟩
+    · intro r hr hd hnp
+      have := hgi.right r hr hd (fun x => hnp (hp _ _ _ x))
+      unfold RowRight at this ⊢
+      rw [hsame _ _ _ hnp]; exact this
+    · intro pre post he hgood
+      have h1 := hgi.chain pre post he
+        (fun r hr => ⟨(hgood r hr).1, fun day hd x => (hgood r hr).2 day hd (hp _ _ _ x)⟩)
+      rw [specRows, specRowsFrom_congr (sigs := sigs) (sigs' := sigs')]
+      · exact h1
+      · intro d hd
+        obtain ⟨r, hr, hrd⟩ := List.mem_map.mp hd
+        subst hrd
+        exact hsame _ _ _ ((hgood r hr).2 r.day (Nat.le_refl _))
+  · intro room ent day hne
+    by_cases he : sigs' room ent day = sigs room ent day
+    · rw [he] at hne
+      rcases h.covers room ent day hne with hc' | hc'
+      · exact Or.inl (hp _ _ _ hc')
+      · exact Or.inr hc'
+    · exact Or.inl (hc _ _ _ he)
+
 end Discret.DailyLog
